@@ -4,6 +4,31 @@ scratch copy of /repo and records which checks fire with which keys."""
 import os, sys, json, subprocess, glob, re, tempfile, shutil
 VERIF = os.path.dirname(os.path.dirname(os.path.abspath(__file__)))
 NEEDS = {
+ 'C15-commit-throttle-loop-ignores-bg-error': 'background threads, a committer parked on the full commit queue (> 16 MiB), then an I/O error in the log worker with more than 16 MiB still queued (patch rebased onto the F16 fix; original kept as patch.orig-776afcf.diff)',
+ 'C07-reset-skipped-on-size-mismatch': 'a ref-counted column with lz4/snappy, a value above the compression threshold that really compresses, and a repeated Set of the present key',
+ 'C13-sequence-advanced-before-validation': 'at least two log files at open, the last record of a non-final file damaged so that LogReader::next fails (CRC flip / truncation in the trailing checksum), the next file starting with the following record id',
+ 'C10-child-count-check-after-claim': 'an InsertTree with an inner (non-root) node of 256 or more children: rejected as before, but only after slots were claimed',
+ 'C06-tier-from-uncompressed-length': 'a compressed column (lz4/snappy), a value above ~32 KiB that compresses to under ~4 KiB, read after process_commits',
+ 'C12-keep-count-after-flush': 'sync_data on, the log stage retiring a log between the start of the column flush and the cleanup-queue drain of the same clean_logs call, then power loss',
+ 'C05-key-tail-compare-skips-two-bytes': 'two keys of a uniform column that differ only in byte 6 (low bits) or byte 7 (bits the index entry does not keep), read after the data left the commit overlay',
+ 'C10-stale-refcount-in-old-table': 'a pending ref-count table re-index, a node count going inc, dec, dec back to one reference meanwhile, a restart before its last reference is dropped',
+ 'C14-free-list-built-before-replay': 'multitree column, crash with a flushed un-enacted record that re-used freed slots, recovery, then free/claim traffic in that size tier',
+ 'C12-msync-range-stale': 'power loss (not a process crash) after a log was cleaned, with data in a region of a value table added by in-place growth during the current session',
+ 'C03-deferred-commit-reports-drained': 'a multitree DereferenceTree commit that is last in the queue while its tree reader is locked at the moment the handle is dropped',
+ 'C09-zero-pattern-fallback-wrong-width': 'a 16 or 17 bit index, a key whose hash bits 16..48 are zero but bits 48..50 are not, and a removed earlier entry in the same page',
+ 'C08-validate-interleaved-with-publish': 'a commit refused in commit_raw whose earlier (valid) change set overwrote the overlay entry of a still queued commit for the same key; a read before the queue drains',
+ 'C02-drop-table-ignores-id': 'two index growths in one record, the record enacted but its log not yet truncated while the earlier log is already cleaned; crash; replay of DropTable for a table that is already gone',
+ 'C01-writer-search-skips-by-progress': 'two stacked reindexes with a collected but not enacted batch, then a commit on a key living only in the second queued index whose chunk is below the progress value',
+ 'C05-log-overlay-merge-keeps-old-tag': 'two simultaneously pending log records touching one index chunk, and a read (or third commit) after the first was enacted and before the second',
+ 'C06-chain-link-boundary': 'a multipart value whose stored record length is an exact multiple of 4086 bytes',
+ 'C17-column-prefix-accepted': 'opening (or an administration call) with a column list that is a strict prefix of the stored one',
+ 'C18-dirlock-guard-unlinks': 'a live handle, one (correctly refused) second open, then a third open',
+ 'C11-walk-locks-wrong-registry-key': 'a client that obtains and locks the TreeReader after the deferral check of the log worker and before the dereference walk (rc 1 -> 0)',
+ 'C16-header-read-error-is-eof': 'an I/O fault exactly on one of the two reads of a record header in the enact stage, an un-enacted record after it, cleanup, restart',
+ 'C20-index-walk-stops-at-empty-slot': 'two keys in one index chunk, the earlier inserted one removed, then a migration',
+ 'C13-crc-only-for-newest-log': 'at least two log files at open and a structure-preserving bit flip in one that is not the last',
+ 'C14-index-removal-by-first-match': 'two live keys colliding in the 54 bits the index stores (uniform keys), removal of the later one',
+ 'C15-throttle-wait-loop-ignores-shutdown': 'more than 128 MiB logged but not enacted at the moment of drop (log worker parked in the throttle) and still above the limit when the commit worker exits',
  'C03-reader-preinstalled-at-eof': 'drop of the handle while at least four log files are still to be gone through (lined-up reader + read queue + appending log); with <= 3 nothing shows',
  'C04-root-split-loses-left-child': 'a btree root split where both the full root and its left half are stored in the last (multipart) size tier, i.e. very long keys: write_node_plan then rewrites in place and returns None',
  'C06-header-not-dirty-on-reuse': 'a freed slot of a tier reused by a commit that makes no other allocation/free in that tier, no later header change before shutdown, reopen, then another insert into the tier',
@@ -45,6 +70,31 @@ NEEDS = {
  'C07-skip-set-if-present': 'three queued commits Set(k) / Dereference(k) to zero / Set(k); read after the first two were processed',
 }
 ORIGIN = {
+ 'C15-commit-throttle-loop-ignores-bg-error': "rule added after this seed exposed the gap (a throttle wait that can be re-entered looks at the error slot on every trip); the seeding agent's side note led to defect F16 (commit arriving after the worker died parks forever), fixed in /repo 64b77bd with rules C15 2g/2h",
+ 'C07-reset-skipped-on-size-mismatch': 'rule strengthened after this seed (C07 2b only required the increment to be reachable; 2f requires it on every success path of the arm)',
+ 'C13-sequence-advanced-before-validation': 'rules existed before the seed (sequence guard form, last_enacted advanced only after validation, no apply after advance)',
+ 'C10-child-count-check-after-claim': 'rules existed before the seed (C10 1a narrowing guard / validated-before-claimed; C08 K6b reports the new claim-then-fail key)',
+ 'C06-tier-from-uncompressed-length': 'no rule',
+ 'C12-keep-count-after-flush': 'rule existed before the seed (C12 2c, added for C12-count-after-flush)',
+ 'C05-key-tail-compare-skips-two-bytes': 'rule added after this seed exposed the gap (the equality in TableKey::compare is applied to the whole partial key and the whole fetched tail)',
+ 'C10-stale-refcount-in-old-table': 'rule added after this seed exposed the gap (after a ref-count entry is removed every success path sweeps the queued older tables)',
+ 'C14-free-list-built-before-replay': 'rule existed before the seed (init_table_data only after replay and log cleanup; same idea as C10-init-before-replay)',
+ 'C12-msync-range-stale': 'first reported only because the msync call moved into a helper the rule did not look through (K1 target not found); rule restated as a predicate on the call (offset + length == map.len(), helper-transparent) with a crate-wide "no partial msync" obligation, and a full-range helper kept as a control',
+ 'C03-deferred-commit-reports-drained': 'rule added after this seed exposed the gap (every success return after a commit was logged or re-queued is the constant Ok(true))',
+ 'C09-zero-pattern-fallback-wrong-width': 'rule added after this seed exposed the gap (the value broadcast as vector compare target is the value tested against zero)',
+ 'C08-validate-interleaved-with-publish': 'rule existed before the seed (K6b effect-before-error reports the new publish-then-fail keys)',
+ 'C02-drop-table-ignores-id': 'rule added after this seed exposed the gap (dequeue/unlink decided by comparing the queue front id with the id from the record)',
+ 'C01-writer-search-skips-by-progress': 'rule existed for C09 (every queued index searched, planner side) and fired there; attached to C01 as well afterwards',
+ 'C05-log-overlay-merge-keeps-old-tag': 'first reported only through an anchor count; rule added afterwards (shared log-overlay entries are only inserted/extended whole, never edited in place - with parameter binding so that helpers receiving the map are seen)',
+ 'C06-chain-link-boundary': 'fires through an existing rule (C06 3b: the size word written for the last part is guarded by remainder <= free space) because the changed condition no longer bounds it; the boundary arithmetic itself (exact multiple of the linked payload) is not decided',
+ 'C17-column-prefix-accepted': 'rule existed before the seed (C17 1j: the number of columns is compared)',
+ 'C18-dirlock-guard-unlinks': 'rules existed before the seed (same idea as C18-lockfile-guard, found independently)',
+ 'C11-walk-locks-wrong-registry-key': 'rule added after this seed exposed the gap (the key given to get_tree by the walk is the user-key field of the change, the deferral check uses the hashed-key field)',
+ 'C16-header-read-error-is-eof': 'rule existed before the seed (C16 2g, added for C16-any-io-error-is-eof)',
+ 'C20-index-walk-stops-at-empty-slot': 'rule added after this seed exposed the gap (in page walks the empty-slot branch returns to the loop head)',
+ 'C13-crc-only-for-newest-log': 'rule added after this seed exposed the gap (the validate flag reaches LogReader::new unchanged from the validation_mode parameter)',
+ 'C14-index-removal-by-first-match': 'rule added after this seed exposed the gap (the cleared index slot is the position returned by the key-tail-verified search, forwarded through every call level)',
+ 'C15-throttle-wait-loop-ignores-shutdown': 'rule added after this seed exposed the gap (a throttle wait that can be re-entered re-reads the shutdown flag)',
  'C03-reader-preinstalled-at-eof': 'read_queue consumer confinement existed and fired, but only because the change added a helper with a new name; confinement made helper-transparent and rule f2 (no unread reader left behind when read_next reports end) added after the seed',
  'C04-root-split-loses-left-child': 'rule added after this seed exposed the gap (sibling agreement: every caller of write_node_plan inspects the returned Option - None means rewritten in place - before storing it as an address)',
  'C06-header-not-dirty-on-reuse': 'rule existed before the seed (every filled/last_removed update marks the header dirty: C14 1a / C10 5x)',
@@ -86,6 +136,7 @@ ORIGIN = {
  'C15-wake-boundary': 'rule added after this seed exposed the gap (wake predicate is the complement of the wait predicate)',
 }
 NOT_DETECTED = {
+ 'C06-tier-from-uncompressed-length': 'value-level: the size tier becomes Option::min of two searches, and None (= blob table) orders below Some(k); which tier index a length maps to is arithmetic over table sizes, outside the structural clauses claimed for C06 (layout constants, same-tier replacement, size-word bound). A rule pinning the shape of the tier computation ("exactly one search, no min/max") would also fire on harmless rewrites and was not written',
 }
 S = tempfile.mkdtemp(prefix='pdb-seedmeta.')
 REPO = os.path.join(S, 'repo'); CACHE = os.path.join(S, 'cache')
@@ -123,7 +174,7 @@ for d in sorted(glob.glob(os.path.join(VERIF, 'seeded', '*'))):
         'breaks': old.get('breaks') or 'see NOTES.md (written by the sub-agent that produced the change)',
         'needs_to_manifest': NEEDS.get(name, old.get('needs_to_manifest', 'see NOTES.md')),
         'demonstration': demo,
-        'demo_cmd': 'cargo test --offline --features instrumentation --test %s -- --test-threads 1' % (demo[0][:-3] if demo else '?'),
+        'demo_cmd': 'cargo test --offline --features instrumentation --test %s -- --test-threads 1' % (sorted(demo)[0][:-3] if demo else '?'),
         'confirmed_by_me': conf or old.get('confirmed_by_me', 'pending'),
         'what_i_ran': 'bin/confirm_seed.sh in a fresh scratch worktree: demo without the patch (pass), build + demo with the patch (fail), existing 36-test suite with the patch (pass); then bin/seed_meta.py (all claimed checks against the patched scratch copy)',
         'applies_to_current_tree': applies,
